@@ -66,15 +66,14 @@ Proof. repeat constructor; vm_compute; discriminate || reflexivity. Qed.
 Lemma exmid1_dom : Forall (in_dom exkv1) exmid1.
 Proof. repeat constructor; vm_compute; discriminate || reflexivity. Qed.
 
-Lemma ex_two_scale : forall k i x, (i < exn k)%nat ->
+Lemma ex_two_scale : forall k i x, (k < 2)%nat -> (i < exn k)%nat ->
   exB k i x = bigsum (exn (S k)) (fun j => exP k j i * exB (S k) j x).
 Proof.
-  intros k i x Hi. destruct k as [|[|k]].
+  intros k i x Hk Hi. destruct k as [|[|k]]; [| |lia].
   - unfold exB, exn, exP, exK in *. cbn [nth] in *. unfold exkv1.
     exact (two_scale_of_prol exkv0 2 exmid0 exPm0 exkv0_ok exmid0_dom exPm0_eq i x Hi).
   - unfold exB, exn, exP, exK in *. cbn [nth] in *. unfold exkv2.
     exact (two_scale_of_prol exkv1 2 exmid1 exPm1 exkv1_ok exmid1_dom exPm1_eq i x Hi).
-  - exfalso. unfold exn, exK in Hi. destruct k as [|k]; cbn [nth] in Hi; [|destruct k; cbn [nth] in Hi]; vm_compute in Hi; lia.
 Qed.
 
 Example ex_idx_ok :
